@@ -15,7 +15,12 @@ import (
 var h_N, _ = new(big.Int).SetString("FFFFFFFFFFFFFFFFFFFFFFFFFFFFFFFEBAAEDCE6AF48A03BBFD25E8CD0364141", 16)
 
 // the public key of a private key, as an uninterpreted injective function (the curve arithmetic is C08/C03's subject)
-func h_pub(priv []byte) []byte { return zzverif.UF("pubkey", 33, priv) }
+func h_pub(priv []byte) []byte {
+	if !zzverif.Symbolic() {
+		return PublicFromPrivate(priv, true) // native replay runs the real function (Replace has no effect natively)
+	}
+	return zzverif.UF("pubkey", 33, priv)
+}
 
 func h_stub_ec() {
 	zzverif.Replace("btc.PublicFromPrivate", func(priv []byte, compressed bool) []byte { return h_pub(priv) })
@@ -47,14 +52,33 @@ func H_C14_ChildPrivate() {
 	} else {
 		zzverif.Assume(i < 0x80000000)
 	}
-	c := w.Child(i)
-	// reference
 	var data []byte
 	if hardened {
 		data = append([]byte{0}, k...)
-		zzverif.Reach("hardened")
 	} else {
 		data = h_pub(k)
+	}
+	if !zzverif.Symbolic() {
+		// native realiser: HMAC-SHA512 is a free function for the solver, so a counterexample may rest on a value of IL that
+		// the model's index does not produce; search the index space (same hardened class, 2^18 tries) for one where the
+		// key arithmetic on the real IL disagrees with the reference, and replay that index
+		for d := uint32(0); d < 1<<18; d++ {
+			i2 := i&0x80000000 | (i+d)&0x7fffffff
+			I := ref_bip32_I(chain, data, i2)
+			ref := new(big.Int).Add(new(big.Int).SetBytes(I[:32]), new(big.Int).SetBytes(k))
+			ref.Mod(ref, h_N)
+			got := DeriveNextPrivate(I[:32], k)
+			if len(got) != 32 || new(big.Int).SetBytes(got).Cmp(ref) != 0 {
+				i = i2
+				break
+			}
+		}
+	}
+	c := w.Child(i)
+	// reference
+	if hardened {
+		zzverif.Reach("hardened")
+	} else {
 		zzverif.Reach("normal")
 	}
 	I := ref_bip32_I(chain, data, i)
